@@ -120,10 +120,16 @@ func newRealTable(t *tape.Tape, res *core.RunResult) (search.TranspositionTable,
 	slots := tableSlots[t.Choose(len(tableSlots))]
 	limited := t.Chance(1, 3)
 	ctx := context.Background()
-	if limited {
-		return search.NewMinDepthTranspositionTable(1)(ctx, slots<<5), slots, true
+	// "a table of any size": the requested size need not be a power of two (it is rounded down to one)
+	req := slots << 5
+	if t.Chance(1, 3) {
+		req += uint64(1 + t.Choose(int(req)-1))
+		res.Probe("table-size-not-a-power-of-two")
 	}
-	return search.NewTranspositionTable(ctx, slots<<5), slots, false
+	if limited {
+		return search.NewMinDepthTranspositionTable(1)(ctx, req), slots, true
+	}
+	return search.NewTranspositionTable(ctx, req), slots, false
 }
 
 // noRepetitionPossible is a sufficient condition for C11's precondition: every position of the game
